@@ -440,7 +440,7 @@ PublicPrivateRequiredPair publicAndOrPrivateInterfaceTypeRequired(const Variable
         auto equivalentVariable = variable->equivalentVariable(index);
         auto componentOfVariable = variable->parent();
         auto componentOfEquivalentVariable = equivalentVariable->parent();
-        if (componentOfEquivalentVariable == nullptr) {
+        if ((componentOfVariable == nullptr) || (componentOfEquivalentVariable == nullptr)) {
             return std::make_pair(false, false);
         }
         if (areEntitiesSiblings(componentOfVariable, componentOfEquivalentVariable)
